@@ -24,16 +24,17 @@ def all_rules() -> list[Rule]:
 
 
 def claimed() -> list[str]:
-    return sorted({p for r in all_rules() for p in r.props})
+    return sorted({p for r in all_rules() for p in tuple(r.props) + tuple(r.extra)})
 
 
 def run_property(prop: str, tier: str) -> int:
     started = time.time()
-    rules = [r for r in all_rules() if prop in r.props]
+    rules = [r for r in all_rules() if r.applies(prop)]
     if not rules:
         print(f"ANALYSIS-ERROR no rules registered for {prop}")
         return 2
     checker = Checker()
+    checker.prop = prop
     stats = checker.prg.stats()
     if stats["modules"] < 15 or stats["functions_and_lambdas"] < 300:
         print(f"ANALYSIS-ERROR unit count below floor: {stats}")
